@@ -686,6 +686,10 @@ func runCaseRaw(c Case, tmp string, res *lib.Result) string {
 		opts, _ := buildOpts(c, rTgt)
 		rOut, err := mod.Apply(ctx, w.rc, rSrc, opts...)
 		if err != nil {
+			// a refused or failed modification must not leave the requested tag behind
+			if _, herr := w.rc.ManifestHead(ctx, rTgt); herr == nil && pass == 0 {
+				res.Fail("failed-apply-left-tag", fmt.Sprintf("mod.Apply failed (%v) but the target tag %s exists", err, rTgt.CommonName()), c)
+			}
 			return runResult{err: err}, tgtStore, srcDigest, ""
 		}
 		m, err := w.rc.ManifestHead(ctx, rOut)
